@@ -188,6 +188,13 @@ def renderAttrsRec (par : Option (Option HashTab)) (tab : HashTab) (buflen : Nat
         renderAttrsRec par tab buflen rest
           (s.put buflen (sp :: key ++ eq :: dq :: escapeXml val ++ [dq]))
 
+/-- `if (stanza->attributes && hash_num_keys(stanza->attributes) > 0) { … }` -/
+def renderAttrs (par : Option (Option HashTab)) (attrs : Option HashTab) (buflen : Nat) (s : RS) :
+    Except Err RS :=
+  match attrs with
+  | some tab => if tab.count > 0 then renderAttrsRec par tab buflen tab.toList s else .ok s
+  | none => .ok s
+
 mutual
 /-- `_render_stanza_recursive(stanza, buf, buflen)`: the return value and the bytes stored in `buf` -/
 def renderRec (par : Option (Option HashTab)) : Tree → Nat → Except Err (Nat × Bytes)
@@ -197,11 +204,7 @@ def renderRec (par : Option (Option HashTab)) : Tree → Nat → Except Err (Nat
     .ok (s.written, s.out)
   | .tag name attrs ks, buflen =>
     let s0 := (RS.mk 0 buflen []).put buflen (lt :: name)
-    let s1 :=
-      match attrs with
-      | some tab => if tab.count > 0 then renderAttrsRec par tab buflen tab.toList s0 else .ok s0
-      | none => .ok s0
-    match s1 with
+    match renderAttrs par attrs buflen s0 with
     | .error e => .error e
     | .ok s1 =>
       match ks with
@@ -249,15 +252,17 @@ def shownAttrs (par : Option (Option HashTab)) (attrs : Option HashTab) : List E
   | some tab => tab.toList.filter fun e => ¬ (e.1 = xmlnsKey ∧ elideNs par e.2)
   | none => []
 
+/-- `/>` for a stanza without children, else `>` children `</name>` -/
+def tagBody (name : Bytes) (noKids : Bool) (inner : Bytes) : Bytes :=
+  if noKids then [sl, gt] else gt :: inner ++ lt :: sl :: name ++ [gt]
+
 mutual
 def render (par : Option (Option HashTab)) : Tree → Bytes
   | .unknown _ => []
   | .text d _ => escapeXml d
   | .tag name attrs ks =>
     lt :: name ++ (shownAttrs par attrs).flatMap renderAttr ++
-      (match ks with
-       | [] => [sl, gt]
-       | k :: ks' => gt :: renderKids (some attrs) (k :: ks') ++ lt :: sl :: name ++ [gt])
+      tagBody name ks.isEmpty (renderKids (some attrs) ks)
 def renderKids (par : Option (Option HashTab)) : List Tree → Bytes
   | [] => []
   | k :: ks => render par k ++ renderKids par ks
